@@ -459,8 +459,8 @@ theorem render_ne (pat : Pat) (hne : pat ≠ []) (h : ∀ s ∈ pat, segOK s) : 
 /-- `addRouteWithConstraints` on a pattern text of the vocabulary does what the pattern says: the
 root, parameter and wildcard patterns go into the node map as their entry, the parameter-free ones
 into `staticPaths` under their text -/
-theorem addRoute_normal (t : Tree) (r : Route) (hn : NormalPat r.text r.pat) :
-    addRouteGen false t r.text r.rid r.cons =
+theorem addLeaf_normal (t : Tree) (r : Route) (hn : NormalPat r.text r.pat) :
+    addLeafGen false t r.text (leafOf r) =
       if inTree r then { t with nodes := addEntry t.nodes (toEntry r) }
       else { t with statics := setStatic r.text (leafOf r) t.statics } := by
   have htext := hn.text
@@ -468,8 +468,8 @@ theorem addRoute_normal (t : Tree) (r : Route) (hn : NormalPat r.text r.pat) :
   · -- the root
     have ht : r.text = ['/'] := by rw [htext, hpe]; rfl
     have hin : inTree r = true := by simp [inTree, hpe]
-    simp only [addRouteGen, ht, true_or, if_true, hin]
-    simp [addEntry, toEntry, bodyOf, endsWild, hpe, segTexts, descendPrefix, leafOf, ht] <;> rfl
+    simp only [addLeafGen, ht, true_or, if_true, hin]
+    simp [addEntry, toEntry, bodyOf, endsWild, hpe, segTexts, descendPrefix, ht] <;> rfl
   · obtain ⟨hne1, hne2⟩ := render_ne r.pat hpe hn.segs
     rw [← htext] at hne1 hne2
     have hroot : ¬ (r.text = ['/'] ∨ r.text = []) := by
@@ -490,10 +490,10 @@ theorem addRoute_normal (t : Tree) (r : Route) (hn : NormalPat r.text r.pat) :
       · -- `/*`
         have ht : r.text = ['/', '*'] := by
           rw [htext, hsplit, hbe]; rfl
-        simp only [addRouteGen, hroot, if_false, hin, if_true]
+        simp only [addLeafGen, hroot, if_false, hin, if_true]
         have hcut : cutWildSuffix r.text = some [] := by rw [ht]; rfl
         simp only [hcut, if_true]
-        simp [addEntry, toEntry, hbe, hw, segTexts, descendPrefix, leafOf] <;> rfl
+        simp [addEntry, toEntry, hbe, hw, segTexts, descendPrefix] <;> rfl
       · have ht : r.text = render (bodyOf r.pat) ++ ['/', '*'] := by
           rw [htext]
           conv => lhs; rw [hsplit]
@@ -503,11 +503,11 @@ theorem addRoute_normal (t : Tree) (r : Route) (hn : NormalPat r.text r.pat) :
           simp
         have hcut : cutWildSuffix r.text = some (render (bodyOf r.pat)) := by rw [ht]; exact cutWild_some _
         have hpre : render (bodyOf r.pat) ≠ [] := by simp [render]
-        simp only [addRouteGen, hroot, if_false, hin, if_true, hcut, hpre]
+        simp only [addLeafGen, hroot, if_false, hin, if_true, hcut, hpre]
         have hsegs : splitSlash (trimSlashes (render (bodyOf r.pat))) = segTexts (bodyOf r.pat) :=
           model_segs _ hbe hbodyok
         rw [hsegs]
-        simp [addEntry, toEntry, hw, leafOf] <;> rfl
+        simp [addEntry, toEntry, hw] <;> rfl
     | false =>
       have hbody : bodyOf r.pat = r.pat := by simp [bodyOf, hw]
       have hnw : ∀ s ∈ r.pat, s ≠ PSeg.wild := by
@@ -517,7 +517,7 @@ theorem addRoute_normal (t : Tree) (r : Route) (hn : NormalPat r.text r.pat) :
         rw [htext]; exact cutWild_none _ (render_last_ne_star r.pat hpe hn.segs hw)
       have hcolon := colon_iff r.pat hn.segs hnw
       rw [← htext] at hcolon
-      simp only [addRouteGen, hroot, if_false, hcut]
+      simp only [addLeafGen, hroot, if_false, hcut]
       cases hst : isStaticPat r.pat with
       | true =>
         have hin : inTree r = false := by
@@ -525,7 +525,7 @@ theorem addRoute_normal (t : Tree) (r : Route) (hn : NormalPat r.text r.pat) :
         rw [hst] at hcolon
         simp only [Bool.not_true] at hcolon
         have hnc : ':' ∉ r.text := (contains_false_iff _ _).mp hcolon
-        simp only [hcolon, Bool.false_eq_true, not_false_eq_true, if_true, hin, if_false, leafOf]
+        simp only [hcolon, Bool.false_eq_true, not_false_eq_true, if_true, hin, if_false]
       | false =>
         have hin : inTree r = true := by simp [inTree, hst]
         rw [hst] at hcolon
@@ -538,6 +538,140 @@ theorem addRoute_normal (t : Tree) (r : Route) (hn : NormalPat r.text r.pat) :
         unfold patOK at hpok
         rw [hbody] at hpok
         rw [insertStd_eq _ _ hpe hpok]
-        simp [addEntry, toEntry, hw, hbody, leafOf] <;> rfl
+        simp [addEntry, toEntry, hw, hbody] <;> rfl
+
+
+theorem parNames_append (a b : Pat) : parNames (a ++ b) = parNames a ++ parNames b := by
+  induction a with
+  | nil => rfl
+  | cons x xs ih => cases x <;> simp [parNames, ih]
+
+theorem segNames_lit (c : Char) (cs : Bytes) (rest : List Bytes) (hc : c ≠ ':') :
+    segNames ((c :: cs) :: rest) = segNames rest := by
+  conv => lhs; unfold segNames
+  split
+  · rename_i heq; cases heq
+  · rename_i n rest' heq
+    injection heq with h1 _
+    injection h1 with h1 _
+    exact absurd h1 hc
+  · rename_i _ heq
+    injection heq with _ h2
+    rw [h2]
+
+/-- the `:name` segments the registration loops collect are the pattern's parameter names -/
+theorem segNames_segTexts (pat : Pat) (h : ∀ s ∈ pat, segOK s) (hnw : ∀ s ∈ pat, s ≠ PSeg.wild) :
+    segNames (segTexts pat) = parNames pat := by
+  induction pat with
+  | nil => rfl
+  | cons a rest ih =>
+    have ih' := ih (fun s hs => h s (List.mem_cons_of_mem _ hs)) (fun s hs => hnw s (List.mem_cons_of_mem _ hs))
+    unfold segTexts at ih' ⊢
+    cases a with
+    | wild => exact absurd rfl (hnw _ (List.mem_cons_self ..))
+    | par n => simp [renderSeg, segNames, parNames, ih']
+    | lit x =>
+      have hok := h _ (List.mem_cons_self ..)
+      simp only [segOK] at hok
+      cases x with
+      | nil => exact absurd rfl hok.1
+      | cons c cs =>
+        have hc : c ≠ ':' := by intro e; subst e; exact hok.2.2.1 (List.mem_cons_self ..)
+        simp only [List.map_cons, renderSeg, parNames]
+        rw [← ih']
+        exact segNames_lit c cs _ hc
+
+theorem parNames_static (pat : Pat) (h : isStaticPat pat = true) : parNames pat = [] := by
+  induction pat with
+  | nil => rfl
+  | cons a rest ih =>
+    simp only [isStaticPat, List.all_cons, Bool.and_eq_true, decide_eq_true_eq] at h
+    cases a with
+    | lit s => simp only [parNames]; exact ih (by simpa [isStaticPat] using h.2)
+    | par n => simp [kind] at h
+    | wild => simp [kind] at h
+
+/-- `node.paramNames` of a route of the vocabulary are the names its pattern declares -/
+theorem paramNames_normal (r : Route) (hn : NormalPat r.text r.pat) : paramNamesOf r.text = declNames r.pat := by
+  have htext := hn.text
+  by_cases hpe : r.pat = []
+  · have ht : r.text = ['/'] := by rw [htext, hpe]; rfl
+    simp [paramNamesOf, ht, hpe, declNames, parNames]
+  · obtain ⟨hne1, hne2⟩ := render_ne r.pat hpe hn.segs
+    rw [← htext] at hne1 hne2
+    have hroot : ¬ (r.text = ['/'] ∨ r.text = []) := by
+      intro h; rcases h with h | h
+      · exact hne1 h
+      · exact hne2 h
+    cases hw : endsWild r.pat with
+    | true =>
+      have hsplit := pat_split r.pat
+      rw [hw] at hsplit
+      simp only [if_true] at hsplit
+      have hbodyok : ∀ s ∈ bodyOf r.pat, segOK s := fun s hs => hn.segs s (mem_body _ s hs)
+      have hlast : r.pat.getLast? = some PSeg.wild := by simpa [endsWild] using hw
+      have hdecl : declNames r.pat = parNames (bodyOf r.pat) ++ [wildParam] := by
+        unfold declNames
+        rw [hlast]
+        simp only [if_true]
+        conv => lhs; rw [hsplit, parNames_append]
+        simp [parNames]; rfl
+      by_cases hbe : bodyOf r.pat = []
+      · have ht : r.text = ['/', '*'] := by
+          rw [htext, hsplit, hbe]; rfl
+        have hcut : cutWildSuffix r.text = some [] := by rw [ht]; rfl
+        simp only [paramNamesOf, hroot, if_false, hcut, if_true, hdecl, hbe, parNames, List.nil_append]
+      · have ht : r.text = render (bodyOf r.pat) ++ ['/', '*'] := by
+          rw [htext]
+          conv => lhs; rw [hsplit]
+          unfold render
+          simp only [List.map_append, List.map_cons, List.map_nil, renderSeg]
+          rw [join_snoc _ (by simpa using hbe)]
+          simp
+        have hcut : cutWildSuffix r.text = some (render (bodyOf r.pat)) := by rw [ht]; exact cutWild_some _
+        have hpre : render (bodyOf r.pat) ≠ [] := by simp [render]
+        have hsegs : splitSlash (trimSlashes (render (bodyOf r.pat))) = segTexts (bodyOf r.pat) :=
+          model_segs _ hbe hbodyok
+        simp only [paramNamesOf, hroot, if_false, hcut, hpre, hsegs, hdecl]
+        rw [segNames_segTexts _ hbodyok (body_nowild r.pat hn.wlast)]
+    | false =>
+      have hbody : bodyOf r.pat = r.pat := by simp [bodyOf, hw]
+      have hnw : ∀ s ∈ r.pat, s ≠ PSeg.wild := by
+        have := body_nowild r.pat hn.wlast
+        rw [hbody] at this; exact this
+      have hcut : cutWildSuffix r.text = none := by
+        rw [htext]; exact cutWild_none _ (render_last_ne_star r.pat hpe hn.segs hw)
+      have hcolon := colon_iff r.pat hn.segs hnw
+      rw [← htext] at hcolon
+      have hlast : ¬ r.pat.getLast? = some PSeg.wild := by simpa [endsWild] using hw
+      have hdecl : declNames r.pat = parNames r.pat := by
+        unfold declNames
+        simp [hlast]
+      simp only [paramNamesOf, hroot, if_false, hcut, hdecl]
+      cases hst : isStaticPat r.pat with
+      | true =>
+        rw [hst] at hcolon
+        simp only [Bool.not_true] at hcolon
+        simp only [hcolon, Bool.false_eq_true, not_false_eq_true, if_true]
+        exact (parNames_static _ hst).symm
+      | false =>
+        rw [hst] at hcolon
+        simp only [Bool.not_false] at hcolon
+        simp only [hcolon, not_true_eq_false, if_false]
+        have hsegs : splitSlash (trimSlashes r.text) = segTexts r.pat := by
+          rw [htext]; exact model_segs _ hpe hn.segs
+        rw [hsegs]
+        exact segNames_segTexts _ hn.segs hnw
+
+/-- `addRouteWithConstraints` on a pattern text of the vocabulary does what the pattern says: the
+root, parameter and wildcard patterns go into the node map as their entry, the parameter-free ones
+into `staticPaths` under their text; the leaf carries the names the pattern declares -/
+theorem addRoute_normal (t : Tree) (r : Route) (hn : NormalPat r.text r.pat) :
+    addRouteGen false t r.text r.rid r.cons =
+      if inTree r then { t with nodes := addEntry t.nodes (toEntry r) }
+      else { t with statics := setStatic r.text (leafOf r) t.statics } := by
+  unfold addRouteGen
+  rw [paramNames_normal r hn]
+  exact addLeaf_normal t r hn
 
 end Rivaas.RadixL
